@@ -2,6 +2,7 @@ package harness
 
 import (
 	"fmt"
+	"math"
 
 	"github.com/gethiox/HIDI/internal/pkg/midi/device/config"
 )
@@ -90,16 +91,7 @@ func doWalk(prop string, c *KeyCase) (*walk, *Violation) {
 				delete(down, PK{s.Sub, s.Code})
 			}
 		case "abs":
-			a := axisInfo[s.Code]
-			lim := float64(a.Max)
-			if s.Val < 0 {
-				lim = -float64(a.Min)
-			}
-			frac := float64(s.Val) / lim
-			if frac < 0 {
-				frac = -frac
-			}
-			axisRest[s.Code] = frac < 0.3
+			axisRest[s.Code] = math.Abs(axisPos(axisInfo[s.Code], s.Val)) < 0.3
 			ws.Model = ModelStep{Kind: "axis"}
 		default:
 			ws.Model = ModelStep{Kind: "ignored"}
